@@ -43,7 +43,58 @@ type runner struct {
 
 func pick[T any](r *kit.Rand, xs ...T) T { return xs[r.Intn(len(xs))] }
 
+// genVolumeWorld: a node that is already cordoned and drained, whose termination hinges on volume attachments:
+// attachments with and without a PV, pods that shield their volumes (tolerating / mirror / stuck terminating) or not,
+// and a termination deadline around the current instant.
+func genVolumeWorld(r *kit.Rand) *world {
+	w := &world{Now: 1000, Inst: pick(r, "IRunning", "IShutting", "IGone")}
+	w.Nodes = []*wNode{{ID: 0, Managed: true, Fin: true, Del: true, Taint: true, Lbl: true, Ready: true}}
+	c := &wClaim{Managed: true, Fin: true, Pid: true, Reg: true, Del: i64(900), Drained: pick(r, "T", "T", "U"), Since: 990, Vol: pick(r, "", "U", "T", "F")}
+	if r.Chance(70, 100) {
+		c.Tgp = i64(100)
+		c.Annot, c.AnnotAt = "at", w.Now+int64(pick(r, -30, -1, 0, 1, 30))
+	}
+	if r.Chance(15, 100) {
+		c = nil
+	}
+	w.Claim = c
+	for k := r.Range(1, 3); k > 0; k-- {
+		p := &wPod{ID: int64(len(w.Pods)), Node: 0}
+		switch r.Intn(5) {
+		case 0:
+			p.Tol = true
+		case 1:
+			p.Static = true
+		case 2:
+			p.Del = i64(w.Now - int64(pick(r, 60, 61, 90)))
+		case 3:
+			p.Terminal = true
+		default:
+			p.Tol = true
+		}
+		for x := int64(1); x <= 2; x++ {
+			if r.Chance(60, 100) {
+				p.PVs = append(p.PVs, x)
+			}
+		}
+		w.Pods = append(w.Pods, p)
+	}
+	for k := r.Range(1, 3); k > 0; k-- {
+		v := &wVA{ID: int64(len(w.VAs)), Node: 0}
+		if !r.Chance(15, 100) {
+			v.PV = i64(int64(r.Range(1, 3)))
+		}
+		w.VAs = append(w.VAs, v)
+	}
+	return w
+}
+
+var volumeSites = []string{"SListVAs", "SListPodsVA", "SGetPVC", "SGetPVC", "SPatchStatus", "SProvDelete", "SRmNodeFin"}
+
 func genWorld(r *kit.Rand, stream string) *world {
+	if stream == "volumes" {
+		return genVolumeWorld(r)
+	}
 	w := &world{Now: 1000, Inst: "IRunning"}
 	nn := 1
 	switch {
@@ -425,6 +476,16 @@ func (rn *runner) history(stream string, r *kit.Rand) {
 			case 1:
 				o = envOp(r, w, pick(r, "delclaim", "delclaim", "restart", "tick"))
 			}
+		} else if stream == "volumes" && k%2 == 0 {
+			o = &opx{kind: "reconcile-node", ctrl: "node"}
+			if faults > 0 && r.Chance(50, 100) {
+				o.f = &fault{Site: pick(r, volumeSites...), Kind: pick(r, kinds...)}
+				if o.f.Site == "SListVAs" || o.f.Site == "SListPodsVA" || o.f.Site == "SProvDelete" {
+					o.f.Kind = "KServer"
+				}
+				faults--
+			}
+			o.g = fmt.Sprintf("RNode 0 %s", o.f.g())
 		} else {
 			o = nextOp(r, w, &faults, n-k)
 		}
@@ -538,13 +599,16 @@ func main() {
 	rn := &runner{c: c, s: newSut()}
 	total := 1600
 	if c.Thorough() {
-		total = 16000
+		total = 8000
 	}
 	for i := 0; i < total; i++ {
 		r := c.Rand.Fork()
 		stream := "termination"
-		if i%8 == 7 {
+		switch i % 8 {
+		case 7:
 			stream = "launch"
+		case 3:
+			stream = "volumes"
 		}
 		rn.history(stream, r)
 	}
